@@ -856,19 +856,21 @@ func shrink(sc *Scenario, d *disagreement, seed uint64, budget time.Duration) (*
 }
 
 type WorkerOut struct {
-	Worker       int               `json:"worker"`
-	Scenarios    int               `json:"scenarios"`
-	Executions   int               `json:"executions"`
-	Nontrivial   int               `json:"nontrivial_scenarios"`
-	Probes       map[string]int    `json:"probes"`
-	Faults       map[string]int    `json:"faults_fired"`
-	Verdicts     map[string]int    `json:"verdicts"`
-	WallS        float64           `json:"wall_s"`
-	Violation    *ReplayFile       `json:"violation,omitempty"`
-	ReplayPath   string            `json:"replay_path,omitempty"`
-	Known        []string          `json:"known_findings,omitempty"`
-	Inconclusive string            `json:"inconclusive,omitempty"`
-	Samples      []json.RawMessage `json:"samples,omitempty"`
+	Worker         int               `json:"worker"`
+	Scenarios      int               `json:"scenarios"`
+	Executions     int               `json:"executions"`
+	Nontrivial     int               `json:"nontrivial_scenarios"`
+	Probes         map[string]int    `json:"probes"`
+	Faults         map[string]int    `json:"faults_fired"`
+	Verdicts       map[string]int    `json:"verdicts"`
+	WallS          float64           `json:"wall_s"`
+	Violation      *ReplayFile       `json:"violation,omitempty"`
+	ReplayPath     string            `json:"replay_path,omitempty"`
+	Known          []string          `json:"known_findings,omitempty"`
+	Inconclusive   string            `json:"inconclusive,omitempty"`
+	FoundAfterRuns int               `json:"found_after_runs,omitempty"`
+	FoundAfterS    float64           `json:"found_after_s,omitempty"`
+	Samples        []json.RawMessage `json:"samples,omitempty"`
 }
 
 func scenarioHash(sc *Scenario) uint64 {
@@ -1054,6 +1056,9 @@ func main() {
 				"orders": fmt.Sprint(orders(rs, k)), "map_order_decisions": st.mapDecisions, "observation_under_asc_head": headLines(base, 8)}
 			b, _ := json.Marshal(s)
 			w.Samples = append(w.Samples, b)
+		}
+		if d != nil {
+			w.FoundAfterRuns, w.FoundAfterS = w.Scenarios, time.Since(t0).Seconds()
 		}
 		if d != nil && d.kind == "process-state" {
 			path := filepath.Join(*replayDir, fmt.Sprintf("C20-%d-%d.json", *seed, idx))
